@@ -1,6 +1,7 @@
 package main
 
 import (
+	"bufio"
 	"io"
 	"net/netip"
 	"reflect"
@@ -26,5 +27,12 @@ func setupNetip(e *sym.Engine, st *sym.State, l *sym.Loaded) {
 	e.NativeGlob["strconv.ErrSyntax"] = &strconv.ErrSyntax
 	e.NativeGlob["strconv.ErrRange"] = &strconv.ErrRange
 	e.NativeGlob["io.EOF"] = &io.EOF
+	e.NativeGlob["io.ErrNoProgress"] = &io.ErrNoProgress
+	e.NativeGlob["io.ErrUnexpectedEOF"] = &io.ErrUnexpectedEOF
+	e.NativeGlob["io.ErrShortWrite"] = &io.ErrShortWrite
+	e.NativeGlob["bufio.ErrBufferFull"] = &bufio.ErrBufferFull
+	e.NativeGlob["bufio.ErrNegativeCount"] = &bufio.ErrNegativeCount
+	e.NativeGlob["bufio.ErrInvalidUnreadByte"] = &bufio.ErrInvalidUnreadByte
+	e.NativeGlob["bufio.ErrInvalidUnreadRune"] = &bufio.ErrInvalidUnreadRune
 	e.PreloadGlobals(st)
 }
